@@ -403,7 +403,7 @@ pub fn conclude(property: &str, engine: &str, seed: u64, violations: &[Violation
     for v in violations {
         if let Some(k) = known.iter().find(|k| k.property == property && v.class.contains(&k.key)) {
             if !announced.contains(&k.text) {
-                println!("KNOWN-FINDING: property={} {}", property, k.text);
+                println!("KNOWN-FINDING: {}", k.text);
                 announced.push(k.text.clone());
             }
         } else {
